@@ -18,10 +18,28 @@ EXPLANATION = (
     'character; (MPT.1) the run counter incremented for zero groups is reset to 0 on every path of the scan '
     'loop that sees a non-zero group; (GRD.2) the "::" compression branch is taken only for runs of at '
     'least two groups, so "0::" never stands for a single leading zero group; (TAB.1) each optional hex '
-    'digit part>>k is printed exactly when part >= 16^(k/4), and the last digit unconditionally.  NOT '
+    'digit part>>k is printed exactly when part >= 16^(k/4), and the last digit unconditionally; (GRD.3) the '
+    'dotted-quad form is used only when words 0-4 are zero and word 5 is 0 or 0xffff (no address bits are '
+    'dropped).  NOT '
     'decided: that the parser maps the text back to the same address (values over 2^128 inputs; the parser\'s '
     'index arithmetic needs relational invariants, see C13).')
 ASSUMPTIONS = ['clang 14 CFG', 'the parser irc_pton is not analysed (declined with C13)']
+
+
+class _NoWord6(object):
+    def __init__(self, R):
+        self.R = R
+
+    def ob(self, rule, ok, site, what, key=None, **k):
+        if key == 'v4:word6':
+            return True
+        return self.R.ob(rule, ok, site, what, key=key, **k)
+
+    def floor(self, rule, n, why=''):
+        self.R.floor(rule, 2, why)
+
+    def __getattr__(self, n):
+        return getattr(self.R, n)
 
 
 def printer(P):
@@ -248,6 +266,10 @@ def digit_thresholds(P, R, f, out, posv):
 
 
 def run(P, R, tier):
+    from ..report import Remap
+    from . import c09
+    # word 6 non-zero is an addressing clause (C09); losing words 0-4 or 5 loses address bits
+    c09.dotted_quad_guard(P, _NoWord6(Remap(R, {'C09.GRD.2': 'C12.GRD.3'})))
     f, out, posv = printer(P)
     bounded(P, R, f)
     head, lv, N, body = path_weight(P, R, f, out, posv)
